@@ -16,7 +16,7 @@ NAME = "clocksim"
 SIM_UNIT = "clock ticks"
 BUDGET = {"quick": {"runs": 30000, "wall": 80}, "thorough": {"runs": 150000, "wall": 1200}}
 SHRINK_LISTS = ("ops",)
-PROBES = {"C15": ["deepcopy-continue", "lti:broadcast-constants", "custom-forward", "ltv-property-only", "refpoint-same-state-new-time", "jump-back", "jump-forward", "jump-tensor", "reset-nonzero", "refpoint-default",
+PROBES = {"C15": ["state_dict-roundtrip", "deepcopy-continue", "lti:broadcast-constants", "custom-forward", "ltv-property-only", "refpoint-same-state-new-time", "jump-back", "jump-forward", "jump-tensor", "reset-nonzero", "refpoint-default",
                   "refpoint-explicit", "read-after-call-since-refpoint", "read-after-jump-since-refpoint",
                   "ltv-wrap", "batched-lti", "float-reftime"]}
 TOL = 1e-10
@@ -31,7 +31,7 @@ def generate(seed, tier, prop="C15"):
            "wrap": r.random() < 0.3, "cbroad": r.random() < 0.2, "variant": r.choice(["plain", "plain", "custom-forward", "prop-only"])}
     ro = rng.stream(seed, "ops")
     n_ops = ro.randint(2, 40 if tier == "thorough" else 25)
-    w = {"call": 5, "read": 3, "readtime": 1, "deepcopy": ro.choice([0, 0, 1]), "reset": ro.choice([0, 1, 2]), "settime": ro.choice([0, 1, 2]),
+    w = {"call": 5, "read": 3, "readtime": 1, "deepcopy": ro.choice([0, 0, 1]), "roundtrip": ro.choice([0, 0, 1]), "reset": ro.choice([0, 1, 2]), "settime": ro.choice([0, 1, 2]),
          "setref": ro.choice([1, 2]) if kind != "LTI" else 0, "setref_default": ro.choice([0, 1, 2]) if kind == "NLS" else 0,
          "setref_same": ro.choice([0, 1, 1]) if kind == "NLS" else 0}
     names = [k for k in w if w[k] > 0]
@@ -286,6 +286,13 @@ def execute(plan, prop, out, tr):
             calls_since_ref += 1
             out.sim_time += 1
             tr.ev("call", i, xn, y)
+        elif op == "roundtrip":
+            # persistence round trip of the module: the clock is a registered buffer and must survive it unchanged
+            sd = {k_: v_.clone() for k_, v_ in sysm.state_dict().items()}
+            sysm.load_state_dict(sd)
+            if i % 2:
+                sysm.double()
+            out.probe("state_dict-roundtrip")
         elif op == "deepcopy":
             # snapshot of the system (a look-ahead copy): the copy carries on, the original must stay where it was
             import copy as _copy
